@@ -693,6 +693,14 @@ example : CustomInline.decide { imports := [("", 12), ("my.domain", 2)], nodeDom
 theorem adapt_exits_covered :
     Generated.AdaptAttrInventory.adaptInlineExits = CustomInline.coveredExits := by decide +kernel
 
+/-- **slotting_sources_covered** (tie G). `BaseVars._flatten/__iter__/__len__`, `Node.min_input/min_output`,
+    `StandardNode.min_input/min_output` and the popping loops of `Node.to_onnx`, as read from the source on
+    this run, are statement for statement the ones `Model/Emit.lean` (`flatten`, `len`, `emitSlots`,
+    `emitSlotsCustom`, `trimRev`) was written against: a `__len__` that counts declared fields, a changed
+    minimum or loop condition breaks this obligation whatever inputs are generated. -/
+theorem slotting_sources_covered :
+    Generated.AdaptAttrInventory.slotting = Emit.coveredSlotting := by decide +kernel
+
 /-- **adapt_functions_covered** (tie G). `_adapt.py` as a whole: its functions and the (kind, guards) of
     every exit of each. -/
 theorem adapt_functions_covered :
